@@ -425,3 +425,12 @@ def table_of(e):
         if bp and bp[1] == "links":
             return bp[0]
     return None
+
+
+ALLOC_CALLS = ("Allocator::allocate", "Allocator::allocate_zeroed", "alloc::alloc::alloc", "alloc::alloc::alloc_zeroed", "alloc::alloc::exchange_malloc",
+               "alloc::boxed::Box::<T>::new", "alloc::boxed::Box::<T>::new_uninit")
+
+
+def is_fresh_alloc(box):
+    """Is this box the result of an allocation made by the function under analysis (an object under construction)?"""
+    return mentions(box, lambda x: x[0] == "call" and (x[2].endswith(ALLOC_CALLS[:2]) or x[2] in ALLOC_CALLS[2:]))
